@@ -651,6 +651,7 @@ fn exec_op_inner<C: Cv, CS: ConstraintSystem<Fr<C>>>(
         Op::Expr { e, fix, delta } => {
             let mut lc = build_expr(cx, e);
             let mut cj: Option<Value> = None;
+            let dval = delta.as_ref().map(|d| cx.val(d)).unwrap_or_else(Fr::<C>::zero);
             if let Some(id) = fix {
                 let c = if is_p {
                     let d = delta.as_ref().map(|d| cx.val(d)).unwrap_or_else(Fr::<C>::zero);
@@ -669,6 +670,7 @@ fn exec_op_inner<C: Cv, CS: ConstraintSystem<Fr<C>>>(
             let mut ev = json!({"ev":"call","ph":ph,"op":"expr","e":serde_json::to_value(e).unwrap(),"ret":[],"err":""});
             if let Some(c) = cj {
                 ev["c"] = c;
+                ev["d"] = enc_s::<C>(&dval);
             }
             cx.emit(ev);
             Ok(())
